@@ -218,7 +218,7 @@ def props(run, prop):
     M = run.M
     K, QL = M.K, M.QL
     out = []
-    noinit = z3.And(z3.Not(M.RIFAIL), z3.Or(M.DIFAIL < 0, M.DIFAIL > QL))
+    noinit = z3.And(z3.Not(M.RIFAIL), M.DIFAIL < 0)
     main_ok = lambda S: z3.Or([S["pc0"] == e for e in M.main_end_ok])
     main_err = lambda S: z3.Or([S["pc0"] == e for e in M.main_end_err])
     if prop == "C07":
@@ -327,6 +327,33 @@ def main():
     return rc
 
 
+def schedule_of(steps):
+    """time-triggered schedule for the native replay: every step of the counterexample gets a slot;
+    the events the user closures can delay are mapped to the slot of the step they belong to.
+    work of job j starts in the slot of its `work` step and ENDS in the slot of the job's send step,
+    so that a result can be made to arrive late."""
+    sched = {}
+    nfill = nnext = ninit = 0
+    for i, (thr, prims) in enumerate(steps):
+        for pr in prims:
+            if pr.startswith("fill "):
+                sched["fill%d" % nfill] = i
+                nfill += 1
+            elif pr == "c_next":
+                sched["next%d" % nnext] = i
+                nnext += 1
+            elif pr.startswith("init_d "):
+                sched["init_d%d" % ninit] = i
+                ninit += 1
+            elif pr.startswith("init_r "):
+                sched["init_r"] = i
+            elif pr.startswith("work ") and thr.startswith("job"):
+                sched["work%s" % thr[3:]] = i
+            elif pr.startswith("send_D") and thr.startswith("job"):
+                sched["workend%s" % thr[3:]] = i
+    return sched
+
+
 def native_facts(q, attempts=3):
     r = native_replay(q, attempts=attempts, raw=True)
     return r
@@ -354,7 +381,9 @@ def native_replay(q, attempts=3, raw=False):
     if not os.path.exists(exe):
         return dict(reproduced=False, why="replayer does not build")
     try:
-        p = subprocess.run([exe, json.dumps(dict(config=q["config"], scenario=q["trace"]["scenario"], steps=q["trace"]["steps"], query=q["query"], attempts=attempts))],
+        p = subprocess.run([exe, json.dumps(dict(config=q["config"], scenario=q["trace"]["scenario"], schedule=schedule_of(q["trace"]["steps"]),
+                                                 calls=sum(1 for st in q["trace"]["steps"] for pr in st[1] if pr == "c_next") if q["trace"]["steps"] else -1,
+                                                 query=q["query"], attempts=attempts))],
                            capture_output=True, text=True, timeout=120)
         last = [l for l in p.stdout.splitlines() if l.startswith("{")]
         if not last:
